@@ -11,18 +11,18 @@ META = {
     'explanation': (
         'R1 every <syntax> note of every indexed map parses the way _split_syntax parses it (letter in PRECL, an even number >= 4 of digits, distinct positions >= 1; F-DATA, 1818 notes; range vs. element count is C16.R4). '
         'R2 the letter list of segment_if._split_syntax = the branch labels of is_syntax_valid = {P,R,E,C,L}, the '
-        'fall-through rejects, and the position slices tile the digit string. R3 per branch the counting idiom is '
-        'recognised (loop over all positions, or all but the first for C/L; increment guarded by the presence test; '
-        'C/L guarded by the presence test of the first position) and its three closed expressions - presence test, '
-        'first-position guard, final condition - are evaluated over finite domains (segment length 0..6 x position '
-        '1..6 x value in {absent, empty, non-empty}; count 0..n for n 2..8) and compared with the X12 definitions. '
+        'fall-through rejects, and the position slices tile the digit string (letters and slices decided by constant '
+        'propagation through _split_syntax). R3 is_syntax_valid is decided as a whole by constant propagation through '
+        'its CFG: per letter, for notes of 2-4 positions (adjacent and spaced), segments of 0-6 elements and every '
+        'pattern of empty / non-empty values (762 runs per letter) the verdict equals the X12 definition; the shape of '
+        'the code (counting loops, comprehensions, helpers) does not matter. '
         'R4 in segment_if.is_valid a failed note reaches ele_error with code 10 iff the letter is E, else 2, and '
         'clears the result.'),
-    'not_decided': 'the composition of the recognised idiom parts is trusted to mean "count the present positions" '
-                   '(the idiom recogniser rejects anything else as ANALYSIS-ERROR); error text is not checked',
-    'trusted_base': ['idiom recogniser in sa/rules/c14.py', 'finite evaluator sa/astutil.ev',
+    'not_decided': 'notes of more than four positions and segments of more than six elements (the code is uniform in both); '
+                   'error text is not checked',
+    'trusted_base': ['constant propagation sa/absint.explore', 'finite evaluator sa/astutil.ev',
                      'model of Segment.get_value: None beyond the last element, else the stored string'],
-    'technique': 'static analysis: idiom recognition on the AST + evaluation of closed sub-expressions over finite domains; data sweep over map XML',
+    'technique': 'static analysis: conditional constant propagation over the CFG on finite input domains; data sweep over map XML',
 }
 
 SPEC_VIOLATED = {
@@ -142,16 +142,6 @@ def _returns(stmts):
     return None
 
 
-class SegModel(object):
-    """what is_syntax_valid can observe of a segment: len() and get_value('NN')"""
-
-    def __init__(self, vals):
-        self.vals = vals
-
-    def __len__(self):
-        return len(self.vals)
-
-
 def _get_value(seg, refdes):
     if not (isinstance(refdes, str) and len(refdes) == 2 and refdes.isdigit()):
         raise A.NotClosed('designator %r is not two digits' % (refdes,))
@@ -163,142 +153,87 @@ def _get_value(seg, refdes):
     return seg.vals[i - 1]
 
 
-def _presence_eval(test, inl, posvar):
-    """evaluate a presence test over the finite domain; returns list of counterexamples"""
-    bad = []
-    funcs = {'seg_data.get_value': lambda r: None}
-    n = 0
-    for L in range(0, 7):
-        for s in range(1, 7):
-            for v in ('', 'X', ' '):
-                vals = ['Q'] * L
-                if s <= L:
-                    vals[s - 1] = v
-                elif v != '':
-                    continue
-                seg = SegModel(vals)
-                env = {'seg_data': seg}
-                env.update(posvar(s))
-                funcs = {'seg_data.get_value': lambda r, seg=seg: _get_value(seg, r), 'seg_data.__len__': lambda seg=seg: len(seg)}
-                for name, expr in inl:
-                    env[name] = A.ev(expr, env, funcs)
-                got = bool(A.ev(test, env, funcs))
-                want = s <= L and v != ''
-                n += 1
-                if got != want:
-                    bad.append('len=%d pos=%d value=%r: test says %s' % (L, s, v if s <= L else None, got))
-    return bad, n
+class _Seg(object):
+    """what is_syntax_valid can observe of a segment: len(), get_value('NN') and the segment id"""
+    _sa_model = True
+
+    def __init__(self, vals):
+        self.vals = tuple(vals)
+
+    def __len__(self):
+        return len(self.vals)
+
+    def get_value(self, refdes):
+        return _get_value(self, refdes)
+
+    def get_seg_id(self):
+        return 'XX'
+
+    def __hash__(self):
+        return hash(self.vals)
+
+    def __eq__(self, o):
+        return isinstance(o, _Seg) and o.vals == self.vals
 
 
 def r3_semantics(ctx):
-    fn, arms = _branches(ctx)
-    for letter, body, extra, ifnode in arms:
-        if letter in (None, '?'):
-            continue
-        if letter not in SPEC_VIOLATED:
-            yield Ob('syntax:is_syntax_valid[%s] letter' % letter, False, ctx.floc(fn, ifnode), 'no X12 definition for %r' % letter)
-            continue
-        if extra:
-            raise AnalysisError('branch %s has extra conditions %s' % (letter, [norm(x) for x in extra]))
-        key = 'syntax:is_syntax_valid[%s]' % letter
-        stmts = body
-        guard = None
-        if letter in REST:
-            ifs = [s for s in stmts if isinstance(s, ast.If)]
-            if len(ifs) != 1 or not any(isinstance(x, ast.For) for x in ast.walk(ifs[0])):
-                raise AnalysisError('%s: first-position guard idiom not recognised' % key)
-            guard = ifs[0]
-            stmts = guard.body
-            # unguarded path accepts
-            other = guard.orelse or [s for s in body[body.index(guard) + 1:]]
-            ok = _returns(other) is True
-            yield Ob(key + ' absent first position accepts', ok, ctx.floc(fn, guard),
-                     '' if ok else 'when the first position is absent the note must be satisfied')
-        loops = [s for s in stmts if isinstance(s, ast.For)]
-        if len(loops) != 1:
-            raise AnalysisError('%s: expected exactly one counting loop, found %d' % (key, len(loops)))
-        lp = loops[0]
-        it = norm(lp.iter)
-        if it == 'syn_idx':
-            rest = False
-        elif it == 'syn_idx[1:]':
-            rest = True
-        else:
-            raise AnalysisError('%s: loop range %s not recognised' % (key, it))
-        ok = rest == (letter in REST)
-        yield Ob(key + ' loop range', ok, ctx.floc(fn, lp),
-                 '' if ok else 'counts over %s, X12 %s needs %s' % (it, letter, 'all but the first' if letter in REST else 'all positions'))
-        var = lp.target.id if isinstance(lp.target, ast.Name) else None
-        if var is None:
-            raise AnalysisError('%s: loop target not a name' % key)
-        # counter: initialised to 0 before the loop, incremented by one only under the presence test
-        cname = None
-        inl = []
-        ptest = None
-        for s in lp.body:
-            if isinstance(s, ast.Assign) and len(s.targets) == 1 and isinstance(s.targets[0], ast.Name):
-                inl.append((s.targets[0].id, s.value))
-            elif isinstance(s, ast.If) and not s.orelse and len(s.body) == 1 and isinstance(s.body[0], ast.AugAssign) \
-                    and isinstance(s.body[0].op, ast.Add) and A.const(s.body[0].value) == 1 \
-                    and isinstance(s.body[0].target, ast.Name):
-                if ptest is not None:
-                    raise AnalysisError('%s: two increments in the loop' % key)
-                ptest = s.test
-                cname = s.body[0].target.id
-            else:
-                raise AnalysisError('%s: loop body statement not part of the counting idiom: %s' % (key, norm(s)))
-        if ptest is None:
-            raise AnalysisError('%s: no guarded increment found' % key)
-        inits = [s for s in stmts[:stmts.index(lp)] if isinstance(s, ast.Assign) and path_of(s.targets[0]) == cname]
-        ok = len(inits) == 1 and A.const(inits[0].value) == 0
-        others = [n for n in ast.walk(ast.Module(body=stmts, type_ignores=[])) if isinstance(n, (ast.Assign, ast.AugAssign))
-                  and any(path_of(t) == cname for t in (n.targets if isinstance(n, ast.Assign) else [n.target]))]
-        ok = ok and len(others) == 2
-        yield Ob(key + ' counter starts at 0 and is only incremented in the loop', ok, ctx.floc(fn, lp),
-                 '' if ok else 'counter %s is initialised/assigned %d times' % (cname, len(others)))
-        try:
-            bad, n = _presence_eval(ptest, inl, lambda s: {var: s})
-        except A.NotClosed as e:
-            raise AnalysisError('%s: presence test not closed: %s' % (key, e))
-        yield Ob(key + ' presence test', not bad, ctx.floc(fn, ptest),
-                 '' if not bad else 'presence test `%s` differs from "position within the segment and value not empty": %s'
-                 % (norm(ptest), bad[0]), detail={'evaluated': n, 'counterexamples': bad[:5]})
-        if guard is not None:
-            try:
-                bad, n = _presence_eval(guard.test, [], lambda s: {'syn_idx': (s, 99, 98)})
-            except A.NotClosed as e:
-                raise AnalysisError('%s: first-position guard not closed: %s' % (key, e))
-            yield Ob(key + ' first-position guard', not bad, ctx.floc(fn, guard),
-                     '' if not bad else 'guard `%s` differs from "first position present": %s' % (norm(guard.test), bad[0]),
-                     detail={'evaluated': n, 'counterexamples': bad[:5]})
-        # final condition
-        after = stmts[stmts.index(lp) + 1:]
-        conds = [s for s in after if isinstance(s, ast.If) and any(path_of(x) == cname for x in ast.walk(s.test))]
-        if len(conds) != 1:
-            raise AnalysisError('%s: final condition on the counter not recognised' % key)
-        c = conds[0]
-        tr = _returns(c.body)
-        fl = _returns(c.orelse) if c.orelse else _returns(after[after.index(c) + 1:])
-        if tr is None or fl is None or tr == fl:
-            raise AnalysisError('%s: the two outcomes of the final condition are not (False,..)/(True,..)' % key)
+    """is_syntax_valid decided as a whole: by constant propagation through its CFG for every note letter, notes of two to
+    four positions (adjacent and spaced), every segment length 0..6 and every pattern of empty / non-empty values, the
+    verdict is compared with the X12 definition - P: none or all present; R: at least one; E: at most one; C: if the
+    first is present all the others are; L: if the first is present at least one other is.  A position is present
+    when it lies within the segment and its value is not empty.  The shape of the code - loops or comprehensions,
+    helpers, counters or any()/all() - does not matter; a test that cannot be decided is an analysis error."""
+    from ..absint import explore
+    fn = ctx.func('syntax', 'is_syntax_valid')
+    g = ctx.cfg(fn)
+    POS = ((1, 2), (2, 4), (1, 2, 3), (2, 4, 5), (1, 2, 3, 4), (1, 3, 4, 6))
+    for letter in 'PRECL':
         bad = []
         n = 0
-        for npos in range(2, 9):
-            m = npos - 1 if rest else npos
-            for cnt in range(0, m + 1):
-                try:
-                    got = bool(A.ev(c.test, {cname: cnt, 'syn_idx': tuple(range(1, npos + 1))}))
-                except A.NotClosed as e:
-                    raise AnalysisError('%s: final condition not closed: %s' % (key, e))
-                violated = got if tr is False else not got
-                want = SPEC_VIOLATED[letter](cnt, npos)
-                n += 1
-                if violated != want:
-                    bad.append('%d positions, %d present%s: code says %s' % (
-                        npos, cnt, ' among the rest' if rest else '', 'violated' if violated else 'satisfied'))
-        yield Ob(key + ' decision', not bad, ctx.floc(fn, c),
-                 '' if not bad else 'condition `%s` differs from the X12 definition of %s: %s' % (norm(c.test), letter, bad[0]),
-                 detail={'evaluated': n, 'counterexamples': bad[:5]})
+        for pos in POS:
+            for L in range(0, 7):
+                for vals in itertools.product(('', 'X'), repeat=L):
+                    if L == 3 and vals == ('X', 'X', 'X'):
+                        vals = ('X', ' ', 'X')       # a blank is a value
+                    seg = _Seg(vals)
+                    funcs = {'syntax_str': lambda *a_: 'S', 'syntax_ele_id_str': lambda *a_: 'E'}
+                    outs = []
+
+                    def on_node(nd, env, funcs=funcs):
+                        if nd.kind == 'return':
+                            try:
+                                v = A.ev(nd.ast.value, env, funcs)
+                                outs.append(bool(v[0]) if isinstance(v, tuple) and v else '?')
+                            except (A.NotClosed, TypeError, IndexError, ValueError):
+                                # only the first component (the verdict) matters
+                                rv = nd.ast.value
+                                if isinstance(rv, ast.Tuple) and rv.elts:
+                                    try:
+                                        outs.append(bool(A.ev(rv.elts[0], env, funcs)))
+                                        return
+                                    except (A.NotClosed, TypeError):
+                                        pass
+                                outs.append('?')
+
+                    def unk(nd, env):
+                        raise AnalysisError('syntax:is_syntax_valid[%s]: a test cannot be decided (note positions %s, segment %s): %s'
+                                            % (letter, list(pos), list(vals), norm(nd.ast)))
+                    try:
+                        explore(g, {'syn': (letter,) + pos, 'seg_data': seg}, funcs=funcs, on_node=on_node, on_unknown=unk)
+                    except RuntimeError as e:
+                        raise AnalysisError('syntax:is_syntax_valid: %s' % e)
+                    n += 1
+                    present = [p_ <= L and vals[p_ - 1] != '' for p_ in pos]
+                    if letter in REST:
+                        violated = present[0] and SPEC_VIOLATED[letter](sum(present[1:]), len(pos))
+                    else:
+                        violated = SPEC_VIOLATED[letter](sum(present), len(pos))
+                    if set(outs) != {not violated}:
+                        bad.append('note %s%s on a segment with values %s: %s, X12 says %s' % (
+                            letter, ''.join('%02d' % p_ for p_ in pos), list(vals),
+                            'undecided' if '?' in outs or not outs else ('satisfied' if True in outs else 'violated'), 'violated' if violated else 'satisfied'))
+        yield Ob('syntax:is_syntax_valid[%s] decision' % letter, not bad, ctx.floc(fn),
+                 '' if not bad else bad[0], detail={'evaluated': n, 'counterexamples': bad[:5]})
 
 
 def r4_routing(ctx):
@@ -435,7 +370,7 @@ def r5_attachment_lookup(ctx):
 RULES = [
     Rule('C14.R1', 'syntax notes of every indexed map are well formed (parse as _split_syntax expects)', r1_data, floor=1500),
     Rule('C14.R2', 'letter list = branch labels = PRECL; fall-through rejects; position slices tile the note', r2_letters, floor=4),
-    Rule('C14.R3', 'counting idiom recognised; presence test, guard and decision equal the X12 definitions on finite domains', r3_semantics, floor=15),
+    Rule('C14.R3', 'is_syntax_valid decided per letter over all presence patterns (notes of 2-4 positions, segments of 0-6 elements) against the X12 definitions', r3_semantics, floor=5),
     Rule('C14.R4', 'failed note -> ele_error code 10 iff E else 2, result cleared; satisfied note reports nothing', r4_routing, floor=3),
     Rule('C14.R5', 'the element a note error is attached to is looked up without raising', r5_attachment_lookup, floor=2),
 ]
